@@ -21,7 +21,7 @@ def stepH (acc : List (Nat × Bytes) × List (Bytes × Bytes)) (kv : Bytes × By
 
 def foldHeaders (hs : List (Bytes × Bytes)) : List (Nat × Bytes) × List (Bytes × Bytes) := hs.foldl stepH ([], [])
 
-def WFH (kv : Bytes × Bytes) : Prop := WFHeader kv ∧ validUtf8 kv.1 = true ∧ validUtf8 kv.2 = true ∧ isName kv.1 = true
+def WFH (kv : Bytes × Bytes) : Prop := WFHeader kv ∧ validUtf8 kv.1 = true ∧ validUtf8 kv.2 = true ∧ isName kv.1 = true ∧ isValue kv.2 = true
 
 /-- the header loop reads back exactly the header lines, in order, into the two maps -/
 theorem headers_encode : ∀ (hs : List (Bytes × Bytes)), (∀ kv ∈ hs, WFH kv) →
@@ -41,8 +41,8 @@ theorem headers_encode : ∀ (hs : List (Bytes × Bytes)), (∀ kv ∈ hs, WFH k
     | zero => simp at hf
     | succ f =>
       obtain ⟨k, v⟩ := kv
-      obtain ⟨⟨hk0, hk, hv⟩, hu1, hu2, hnm⟩ := hwf (k, v) (by simp)
-      simp only at hk0 hk hv hu1 hu2 hnm
+      obtain ⟨⟨hk0, hk, hv⟩, hu1, hu2, hnm, hval⟩ := hwf (k, v) (by simp)
+      simp only at hk0 hk hv hu1 hu2 hnm hval
       have ih' := ih (fun x hx => hwf x (by simp [hx])) f rest
       obtain ⟨k0, ks, rfl⟩ : ∃ k0 ks, k = k0 :: ks := by
         cases k with
@@ -64,7 +64,7 @@ theorem headers_encode : ∀ (hs : List (Bytes × Bytes)), (∀ kv ∈ hs, WFH k
       have c2 : consume [CR, LF] (CR :: LF :: (encodeHeaders hs ++ [CR, LF] ++ rest))
           = some (encodeHeaders hs ++ [CR, LF] ++ rest) := consume_append [CR, LF] _
       rw [headers]
-      simp only [hnc, hrk, c1, hrv, hu1, hu2, hnm, Bool.and_self, Bool.not_true, Bool.false_eq_true, if_false, c2]
+      simp only [hnc, hrk, c1, hrv, hu1, hu2, hnm, hval, Bool.and_self, Bool.not_true, Bool.false_eq_true, if_false, c2]
       simp only [List.foldl_cons, stepH]
       cases hsi : stdIndex (k0 :: ks) with
       | some i => simp only; exact ih' _ _ (by simp at hf; omega)
